@@ -344,6 +344,16 @@ class Fn(object):
                 return self.xkey(r, depth + 1)
         return self.key(nid)
 
+    def single_defs(self):
+        """decl -> initialiser of the locals that are defined exactly once, by their initialiser"""
+        if getattr(self, '_single_defs', None) is None:
+            defs = {}
+            for n2, d, rhs, op, lhs in self.assignments():
+                if d and ':' in d:
+                    defs.setdefault(d, []).append((op, rhs))
+            self._single_defs = {d: l[0][1] for d, l in defs.items() if len(l) == 1 and l[0][0] == 'init' and l[0][1] is not None}
+        return self._single_defs
+
     def def_expr(self, nid, depth=0):
         """the expression a value comes from: for a local that is defined exactly once (and whose operands are not written
         in between) its initialiser, otherwise the expression itself"""
